@@ -74,7 +74,7 @@ func checkC20(c *chk.Ctx) {
 	}
 	var mcs []*mcase
 	for i, e := range cases {
-		if !c.Thorough() && (i+int(c.Seed))%2 != 0 && e.Fv["pl"] == "flat" {
+		if false && (i+int(c.Seed))%2 != 0 && e.Fv["pl"] == "flat" { // (no sampling: both tiers run every case)
 			continue
 		}
 		mc := &mcase{ex: e, pkg: strings.TrimPrefix(svcFile(e.Schema).GoImportPath(), "scratch/")}
@@ -245,7 +245,8 @@ func checkC20(c *chk.Ctx) {
 	c.Done()
 }
 
-// exampleLeaves lists the scalar fields (singular) that declare examples, with the observed token
+// exampleLeaves lists the scalar fields (singular, at any depth: below singular messages, map values and list
+// elements) that declare examples, with the observed token
 // and the tokens of the parsable examples.
 func exampleLeaves(s *abs.Schema, m protoreflect.Message, path string) []map[string]any {
 	out := []map[string]any{}
@@ -263,6 +264,21 @@ func exampleLeaves(s *abs.Schema, m protoreflect.Message, path string) []map[str
 		}
 		if fd.Kind() == protoreflect.MessageKind && !fd.IsList() && !fd.IsMap() && m.Has(fd) {
 			out = append(out, exampleLeaves(s, m.Get(fd).Message(), path+string(fd.Name())+".")...)
+			continue
+		}
+		// the messages a reply carries as map values and list elements are replies' parts like any other
+		if fd.IsMap() && fd.MapValue().Kind() == protoreflect.MessageKind {
+			m.Get(fd).Map().Range(func(k protoreflect.MapKey, v protoreflect.Value) bool {
+				out = append(out, exampleLeaves(s, v.Message(), path+string(fd.Name())+"["+k.String()+"].")...)
+				return true
+			})
+			continue
+		}
+		if fd.IsList() && fd.Kind() == protoreflect.MessageKind {
+			l := m.Get(fd).List()
+			for j := 0; j < l.Len(); j++ {
+				out = append(out, exampleLeaves(s, l.Get(j).Message(), fmt.Sprintf("%s%s[%d].", path, fd.Name(), j))...)
+			}
 			continue
 		}
 		if od := fd.ContainingOneof(); od != nil && !od.IsSynthetic() && !m.Has(fd) {
